@@ -88,13 +88,9 @@ func runJob(c *core.Ctx, t *Table, j Job, st *Stats) {
 		case d2.Sig == nil:
 			c.Broken("C20 unexplained difference (reproduced): %s", d2.Detail)
 			return
-		case d.Sig == nil || d.Sig["invariant"] != d2.Sig["invariant"]:
-			if d.Sig != nil && d2.Sig != nil {
-				c.Broken("C20 non-reproducible difference: first %q, then %q", d.Detail, d2.Detail)
-				return
-			}
-			fallthrough
 		default:
+			// (both runs broke an invariant of the property; under a race they need not be
+			// the same one -- the second is reported)
 			c.Fail(core.Failure{Signature: d2.Sig, Detail: d2.Detail,
 				Scenario: map[string]any{"kind": "CCBDial", "job": j, "observed": o2}})
 			return
